@@ -699,32 +699,90 @@ Proof. intros ts e rest C H. unfold expression in H. eapply expression_d_sound; 
 Definition no_separator (ts : list token) : bool :=
   forallb (fun t => match t with TSemicolon => false | _ => true end) ts.
 
-(* whatever `parse` accepts (core tokens, one statement) is the print of a well-formed tree *)
-Theorem parse_sound : forall ts es,
-  core ts = true -> no_separator ts = true -> parse ts = Ok es [] ->
-  ts = [] /\ es = [] \/ exists t, wf t = true /\ pr t = ts /\ es = [desugar t].
+Lemma statement_sound : forall ts st rest, core ts = true -> statement ts = Ok st rest ->
+  exists s, wf_stmt s = true /\ desugar_stmt s = st /\ ts = pr_stmt s ++ rest.
 Proof.
-  intros ts es C NS H. unfold parse in H. rewrite (core_skip ts C) in H.
+  intros ts st rest C H. unfold statement in H.
+  assert (Generic : bind (expression ts) (fun e rest => Ok (StExpr e) rest) = Ok st rest ->
+    exists s, wf_stmt s = true /\ desugar_stmt s = st /\ ts = pr_stmt s ++ rest).
+  { intros H'. apply bind_ok in H'. destruct H' as (e & r1 & E & H'). inversion H'; subst.
+    destruct (expression_sound ts e rest C E) as (t & W & D & Et).
+    exists (SSExpr t). conj; auto. simpl. rewrite D. reflexivity. }
+  destruct ts as [|tok r]; [apply Generic; exact H|].
+  destruct tok; try (apply Generic; exact H).
+  destruct k; try (apply Generic; exact H).
+  - (* let *)
+    unfold parse_variable in H.
+    destruct r as [|t1 r1]; [discriminate|]. destruct t1; try discriminate.
+    destruct r1 as [|t2 r2]; [discriminate|]. destruct t2; try discriminate.
+    assert (Cr2 : core r2 = true) by (eapply core_tail; eapply core_tail; eapply core_tail; eauto).
+    rewrite (core_skip r2 Cr2) in H.
+    apply bind_ok in H. destruct H as (e & r3 & E & H). inversion H; subst.
+    destruct (expression_sound r2 e rest Cr2 E) as (t & W & D & Et).
+    exists (SSLet name t). conj; auto.
+    + simpl. rewrite D. reflexivity.
+    + simpl. rewrite Et. reflexivity.
+  - (* print *)
+    simpl in H. destruct r as [|t1 r1]; [discriminate|]. destruct t1; try discriminate.
+    apply bind_ok in H. destruct H as (args & r2 & E & H). inversion H; subst.
+    assert (Cr1 : core r1 = true) by (eapply core_tail; eapply core_tail; eauto).
+    destruct (arguments_sound _ (expression_d_sound (S (length r1))) r1 args rest Cr1 E) as (targs & Wa & Da & Ea).
+    exists (SSProc KPrint targs). conj.
+    + simpl. exact Wa.
+    + simpl. rewrite Da. reflexivity.
+    + simpl. rewrite Ea. rewrite <- app_assoc. reflexivity.
+  - simpl in H. destruct r as [|t1 r1]; [discriminate|]. destruct t1; try discriminate.
+    apply bind_ok in H. destruct H as (args & r2 & E & H). inversion H; subst.
+    assert (Cr1 : core r1 = true) by (eapply core_tail; eapply core_tail; eauto).
+    destruct (arguments_sound _ (expression_d_sound (S (length r1))) r1 args rest Cr1 E) as (targs & Wa & Da & Ea).
+    exists (SSProc KAssert targs). conj.
+    + simpl. exact Wa.
+    + simpl. rewrite Da. reflexivity.
+    + simpl. rewrite Ea. rewrite <- app_assoc. reflexivity.
+  - simpl in H. destruct r as [|t1 r1]; [discriminate|]. destruct t1; try discriminate.
+    apply bind_ok in H. destruct H as (args & r2 & E & H). inversion H; subst.
+    assert (Cr1 : core r1 = true) by (eapply core_tail; eapply core_tail; eauto).
+    destruct (arguments_sound _ (expression_d_sound (S (length r1))) r1 args rest Cr1 E) as (targs & Wa & Da & Ea).
+    exists (SSProc KAssertEq targs). conj.
+    + simpl. exact Wa.
+    + simpl. rewrite Da. reflexivity.
+    + simpl. rewrite Ea. rewrite <- app_assoc. reflexivity.
+  - simpl in H. destruct r as [|t1 r1]; [discriminate|]. destruct t1; try discriminate.
+    apply bind_ok in H. destruct H as (args & r2 & E & H). inversion H; subst.
+    assert (Cr1 : core r1 = true) by (eapply core_tail; eapply core_tail; eauto).
+    destruct (arguments_sound _ (expression_d_sound (S (length r1))) r1 args rest Cr1 E) as (targs & Wa & Da & Ea).
+    exists (SSProc KType targs). conj.
+    + simpl. exact Wa.
+    + simpl. rewrite Da. reflexivity.
+    + simpl. rewrite Ea. rewrite <- app_assoc. reflexivity.
+Qed.
+
+(* whatever `parse` accepts (core tokens, one statement) is the print of a well-formed statement *)
+Theorem parse_sound : forall ts ss,
+  core ts = true -> no_separator ts = true -> parse ts = Ok ss [] ->
+  ts = [] /\ ss = [] \/ exists s, wf_stmt s = true /\ pr_stmt s = ts /\ ss = [desugar_stmt s].
+Proof.
+  intros ts ss C NS H. unfold parse in H. rewrite (core_skip ts C) in H.
   cbn [parse_loop] in H. destruct ts as [|tok r]; [left; inversion H; split; reflexivity|right].
   destruct (starts_other_statement (tok :: r)); [discriminate|].
-  destruct (expression (tok :: r)) as [e rest| | |] eqn:E; try discriminate.
-  destruct (expression_sound _ e rest C E) as (t & W & D & Et).
-  assert (Crest : core rest = true) by (apply (core_app_r (pr t)); rewrite <- Et; exact C).
+  destruct (statement (tok :: r)) as [st rest| | |] eqn:E; try discriminate.
+  destruct (statement_sound _ st rest C E) as (s & W & D & Et).
+  assert (Crest : core rest = true) by (apply (core_app_r (pr_stmt s)); rewrite <- Et; exact C).
   assert (NSrest : no_separator rest = true).
   { unfold no_separator in *. rewrite Et in NS. rewrite forallb_app in NS. apply andb_prop in NS. tauto. }
   destruct rest as [|t2 r2].
-  - inversion H; subst. exists t. conj; auto. rewrite Et. rewrite app_nil_r. reflexivity.
+  - inversion H; subst. exists s. conj; auto. rewrite Et. rewrite app_nil_r. reflexivity.
   - apply core_head in Crest. simpl in NSrest.
     destruct t2; try discriminate. destruct (last_is_rparen _); discriminate.
 Qed.
 
 (* acceptance of a core token list (one statement) characterised exactly *)
-Theorem parse_characterised : forall ts e,
+Theorem parse_characterised : forall ts st,
   core ts = true -> no_separator ts = true ->
-  (parse ts = Ok [e] [] <-> exists t, wf t = true /\ pr t = ts /\ desugar t = e).
+  (parse ts = Ok [st] [] <-> exists s, wf_stmt s = true /\ pr_stmt s = ts /\ desugar_stmt s = st).
 Proof.
-  intros ts e C NS. split.
-  - intros H. destruct (parse_sound ts [e] C NS H) as [[_ E]|(t & W & P & E)]; [discriminate|].
-    exists t. inversion E; subst. conj; auto.
-  - intros (t & W & P & D). subst. apply roundtrip. exact W.
+  intros ts st C NS. split.
+  - intros H. destruct (parse_sound ts [st] C NS H) as [[_ E]|(s & W & P & E)]; [discriminate|].
+    exists s. inversion E; subst. conj; auto.
+  - intros (s & W & P & D). subst. apply roundtrip_stmt. exact W.
 Qed.
